@@ -239,7 +239,14 @@ def stepLine (st : St) (w : List String) : St × String :=
     | some (.ok (c1, r1, c2, r2)) => let (st', res) := apply st (.unmerge c1 r1 c2 r2); out st' res
     | some (.error _) => out st .err
     | none => (st, "bad-op")
-  | ["gm"] => let (st', res) := apply st .getMerges; out st' res
+  | ["gm"] =>
+    -- whenever the history of merges is hazard-free the one-pass code must produce the normal form of `normSpec`
+    let pre := st.impl.merges.map (·.rect)
+    let (st', res) := apply st .getMerges
+    let (st'', line) := out st' res
+    match normSpec pre with
+    | some l => (st'', if st'.impl.merges.map (·.rect) == l ∧ st'.impl.merges.map (·.ref) == l then line else line ++ " NORMDIFF")
+    | none => (st'', line)
   | "seq" :: dir :: h :: n :: rest =>
     match decode h, n.toNat? with
     | some (.ok (c, r), _), some n =>
